@@ -364,14 +364,24 @@ def grid_paths(rows, cols, cells, start, goal, dirs):
     return out
 
 
-def h_grid(s, rows, cols, cells, goal, directions, heuristic="auto"):
+def h_grid(s, rows, cols, cells, goal, directions, heuristic="auto", blocked=None):
     mod = importlib.import_module("solvor.a_star")
     Status = importlib.import_module("solvor.types").Status
     terrain = s.real("terrain_cost", 1, None)
     costs = {2: terrain}
     grid = [list(r) for r in cells]
+    snapshot = [list(r) for r in cells]
     start = (0, 0)
-    res = mod.astar_grid(grid, start, goal, directions=directions, heuristic=heuristic, costs=costs)
+    kw = {}
+    if blocked == "set":
+        kw["blocked"] = {1}  # the documented set form of the same obstacle value
+    elif blocked == "other":
+        kw["blocked"] = 7  # another obstacle value: the 1-cells are ordinary free cells now
+        cells = [[0 if v == 1 else v for v in r] for r in cells]
+    elif blocked == "both":
+        kw["blocked"] = {1, 2}  # terrain cells are obstacles too
+        cells = [[1 if v == 2 else v for v in r] for r in cells]
+    res = mod.astar_grid(grid, start, goal, directions=directions, heuristic=heuristic, costs=costs, **kw)
     dirs = mod._DIRS_8 if directions == 8 else mod._DIRS_4
     paths = grid_paths(rows, cols, cells, start, goal, dirs)
     sq2 = mod._SQRT2
@@ -380,7 +390,7 @@ def h_grid(s, rows, cols, cells, goal, directions, heuristic="auto"):
     def pw(p):
         return ssum((terrain if cells[r][c] == 2 else 1.0) * (sq2 if dg else 1.0) for ((r, c), dg) in p)
 
-    s.check(grid == [list(r) for r in cells], "grid.input_not_mutated")
+    s.check(grid == snapshot, "grid.input_not_mutated")
     s.observe("status", int(res.status))
     if not paths:
         s.check(res.solution is None and res.status == Status.INFEASIBLE, "grid.infeasible_iff_unreachable", detail=str(res.status))
@@ -509,9 +519,10 @@ def items(tier, rng):
                     ngrid += 1
                     hs = [allh[ngrid % len(allh)]] if q else allh
                     for hname in hs:
-                        out.append({"name": "grid%dx%d" % (R, C), "harness": "h_grid",
-                                    "params": {"rows": R, "cols": C, "cells": cells, "goal": goal, "directions": directions,
-                                               "heuristic": hname}})
+                        prm = {"rows": R, "cols": C, "cells": cells, "goal": goal, "directions": directions, "heuristic": hname}
+                        if ngrid % 7 == 3:
+                            prm["blocked"] = ("set", "other", "both")[(ngrid // 7) % 3]
+                        out.append({"name": "grid%dx%d" % (R, C), "harness": "h_grid", "params": prm})
     if not q:
         for nm, (n, arcs) in SPARSE5.items():
             for algo in ("dijkstra", "astar", "bfs", "dfs"):
